@@ -30,7 +30,7 @@ CLAUSES = ['C09.digest_equal_rng', 'C09.digest_equal_history', 'C09.digest_equal
            'C09.rng_untouched_demo', 'C09.rng_untouched_tmp_seed_raise', 'C09.rng_untouched_plot', 'C09.demo_data_equal', 'C09.mixture_engaged',
            'C09.branch119_target']
 RULE = ('targets: 7 scenes engaging the mixture model (2 reach the #119 branch) + the canonical demo data; RNG: 6 global states (seeds 0, 1, '
-        '2^32-1, after 1000 draws, with a cached Gaussian, after shuffle) ; HISTORY: all sequences of length <= 2 over 6 prior operations (43 per '
+        '2^32-1, after 1000 draws, with a cached Gaussian, after shuffle) ; HISTORY: all sequences of length <= 2 over 8 prior operations (73 per '
         'target), each in a fresh fork; HASHSEED: fresh interpreters with PYTHONHASHSEED in {0,1,2,4242,random}. distinct_nontrivial = distinct '
         '(target, environment) pairs executed')
 ASSUMPTIONS = ['numerical-library thread counts pinned to 1 (the property excludes bitwise reproducibility across thread counts)',
@@ -51,7 +51,7 @@ def targets():
     }
 
 
-PRIOR_OPS = ['run_other', 'run_deep_prms', 'demo_data', 'plot', 'tmp_seed_raise', 'user_rng', 'set_reset']
+PRIOR_OPS = ['run_other', 'run_deep_prms', 'same_data_other_prms', 'demo_data', 'plot', 'tmp_seed_raise', 'user_rng', 'set_reset']
 
 
 def bound(tier):
@@ -116,7 +116,7 @@ def demo_digest(rng_log=None):
     return frame_digest(d)
 
 
-def prior(op, rng_log):
+def prior(op, rng_log, target=None):
     """One prior operation of a history."""
     import ampycloud
     from ampycloud.utils import utils
@@ -133,6 +133,16 @@ def prior(op, rng_log):
                           prms={'LAYERING_PRMS': {'gmm_kwargs': {'delta_mul_gain': 0.1, 'scores': 'AIC'}, 'min_okta_to_split': 0},
                                 'SLICING_PRMS': {'height_scale_kwargs': {'min_range': 20000}}, 'MIN_SEP_VALS': [100, 500]}).metar_msg()
             rng_log.append(('C09.rng_untouched_run', rng_equal(s0, np.random.get_state()), 'prior run with third-level per-call parameters'))
+        elif op == 'same_data_other_prms':
+            # a what-if run on the TARGET's own data with other parameters (same base-height floats, same counts)
+            fr, prms = build_target(target)
+            alt = {'MIN_SEP_VALS': [100, 1000], 'MAX_HITS_OKTA0': 0, 'MAX_HOLES_OKTA8': 5, 'BASE_LVL_LOOKBACK_PERC': 100,
+                   'LAYERING_PRMS': {'gmm_kwargs': {'scores': 'AIC'}}}
+            s0 = np.random.get_state()
+            ampycloud.run(fr, prms=alt).metar_msg()
+            alt2 = {'MIN_SEP_VALS': [2000, 2000], 'LOWESS': {'frac': 0.9}}
+            ampycloud.run(fr, prms=alt2).metar_msg()
+            rng_log.append(('C09.rng_untouched_run', rng_equal(s0, np.random.get_state()), 'prior what-if runs on the same data'))
         elif op == 'demo_data':
             demo_digest(rng_log)
         elif op == 'plot':
@@ -241,7 +251,7 @@ def run_case(case):
         def one(h):
             log = []
             for op in h:
-                prior(op, log)
+                prior(op, log, t)
             dig, _ = run_target(t, log)
             return dig, [(c, ok, w) for c, ok, w in log]
         for h in hists:
